@@ -212,7 +212,11 @@ def run_strhash(case):
             elif x < 0.7:
                 nm = r.choice(sorted(live))
                 ks = r.random() < 0.5
-                sim.remove(hash=nm, keep_sorted=ks)
+                try:
+                    sim.remove(hash=nm, keep_sorted=ks)
+                except Exception as e:
+                    viol.append(dict(mech='remove:by-name-fails-for-existing-particle', msg='remove(hash=%r): %s: %s (model id %r)' % (nm, type(e).__name__, e, live[nm])))
+                    break
                 del live[nm]
             else:
                 nm = r.choice(names)
@@ -225,12 +229,19 @@ def run_strhash(case):
                 if found != live.get(nm):
                     viol.append(dict(mech='lookup:by-name', msg='particles[%r] -> id %r, model %r' % (nm, found, live.get(nm))))
                     break
+            if viol:
+                break
             if sim.N != len(live) or sorted(int(p.m) for p in sim.particles) != sorted(live.values()):
                 viol.append(dict(mech='bookkeeping:named-particles', msg='after %d named ops: ids %r model %r' % (k, sorted(int(p.m) for p in sim.particles)[:30], sorted(live.values())[:30])))
                 break
             for nm, i in list(live.items())[:3]:
-                if sim.particles[nm].hash.value != murmur3_32(nm.encode('ascii')):
-                    viol.append(dict(mech='strhash:stored-hash-differs', msg='particle named %r carries %d' % (nm, sim.particles[nm].hash.value)))
+                try:
+                    hv = sim.particles[nm].hash.value
+                except rebound.ParticleNotFound:
+                    viol.append(dict(mech='lookup:by-name', msg='particles[%r] not found, model id %r' % (nm, i)))
+                    break
+                if hv != murmur3_32(nm.encode('ascii')):
+                    viol.append(dict(mech='strhash:stored-hash-differs', msg='particle named %r carries %d' % (nm, hv)))
                     break
     return dict(violations=viol, cell=['strhash', int(counters['named_lookups'] > 0)], counters=counters, sample=dict(case=case))
 
